@@ -283,6 +283,7 @@ fn fq_subtle(ctx: &Ctx, rec: &mut Rec) {
     for nm in ["Fq: conditional_select", "Fq: conditional_assign", "Fq: conditional_swap", "Fq: ct_eq", "Fq: ct_ne"] {
         rec.declare_form(nm);
     }
+    let rinv = f.inv(&((b(1) << 256) % &f.p)).unwrap();
     par(rec, |w, n, rec| {
         let mut rng = rng_for(ctx.seed, P, w, 77);
         let reps = ctx.scale(4000, 400_000);
@@ -291,9 +292,18 @@ fn fq_subtle(ctx: &Ctx, rec: &mut Rec) {
                 continue;
             }
             let a = if rep % 2 == 0 { zoo[rand_range(&mut rng, zoo.len())].0.clone() } else { rand_below(&mut rng, &f.p) };
-            let bb = match rep % 5 {
+            let bb = match rep % 8 {
                 0 => a.clone(),
                 1 => zoo[rand_range(&mut rng, zoo.len())].0.clone(),
+                // distinct elements whose *internal* (Montgomery) representations differ in exactly one
+                // 32/64-bit limb: b = a + d * 2^(32 i) * R^-1
+                2 | 3 | 4 => {
+                    let i = rand_range(&mut rng, 8);
+                    let d = match rep % 3 { 0 => b(1), 1 => b(1) << 31, _ => rand_below(&mut rng, &(b(1) << 32)) + b(1) };
+                    f.add(&a, &f.mul(&f.mul(&d, &(b(1) << (32 * i))), &rinv))
+                }
+                // ... or whose canonical forms differ in exactly one limb
+                5 => (&a ^ (b(1) << (32 * rand_range(&mut rng, 8) + rand_range(&mut rng, 32)))) % &f.p,
                 _ => rand_below(&mut rng, &f.p),
             };
             let (la, lb) = (fq(&a), fq(&bb));
